@@ -1,3 +1,443 @@
 import HapVerif.Model.C09
+import HapVerif.Generated.Facts
+/-!
+C09 — cross-namespace isolation.
+
+  * `resolve_own_ns`: `buildResourceName` with the permission off and a default namespace never
+    leaves that namespace (all strings).
+  * `getter_reads_only_own`, `bits_independent`, `getter_bit_*`: each getter consults exactly
+    its own permission.
+  * `dyn_*`: `buildGlobalDynamic` — default deny, anything but `allow` denies, a key opens only
+    its kind, `--allow-cross-namespace` opens the three secret kinds and not services.
+  * `site_reads_only_own`: tls secretName, Gateway certificateRefs, auth-tls-secret, auth-secret
+    and the auth-url pre-build only read the annotated object's namespace while their kind is denied.
+  * FULL STRENGTH `isolation` is FALSE for the code as it is; the refutations are theorems
+    (`secure_crt_bypass`, `secure_ca_bypass`, `auth_secret_reuse_bypass`,
+    `auth_url_findbackend_bypass`, `gateway_stale_permission`), and `isolation_partial` proves it
+    under the explicit side conditions that exclude exactly those five paths.
+-/
 namespace HapVerif.C09
+
+/-! ### buildResourceName -/
+
+theorem resolve_own_ns (dns : Str) (key : Option (Str × Str)) (ns n : Str)
+    (hd : dns ≠ []) (h : buildResourceNameK dns key false = .obj ns n) : ns = dns := by
+  cases key with
+  | none => simp [buildResourceNameK] at h
+  | some p =>
+    rcases p with ⟨kns, kn⟩
+    simp only [buildResourceNameK, hd, if_false, Bool.false_or] at h
+    by_cases h1 : kns = []
+    · simp [h1] at h; exact h.1.symm
+    · by_cases h2 : kns = dns
+      · simp [h1, h2] at h; exact h.1.symm
+      · simp [h1, h2] at h
+
+/-- … for every value string -/
+theorem resolve_own_ns_str (dns value ns n : Str) (hd : dns ≠ [])
+    (h : buildResourceName dns value false = .obj ns n) : ns = dns :=
+  resolve_own_ns dns (splitKey value) ns n hd h
+
+/-- with an empty default namespace nothing is checked (operator level references: global
+ConfigMap keys, command-line defaults) -/
+theorem no_default_no_check (ns n : Str) (allow : Bool) :
+    buildResourceNameK [] (some (ns, n)) allow = .obj ns n := by simp [buildResourceNameK]
+
+/-- denial does not depend on whether the object exists: the result is a function of the names only
+(no existence oracle) — by construction `buildResourceNameK` has no world argument. -/
+example : buildResourceName ['a'] ['b', '/', 'n'] false = .denied ∧
+          buildResourceName ['a'] ['b', '/', 'n'] true = .obj ['b'] ['n'] ∧
+          buildResourceName ['a'] ['a', '/', 'n'] false = .obj ['a'] ['n'] ∧
+          buildResourceName ['a'] ['n'] false = .obj ['a'] ['n'] ∧
+          buildResourceName ['a'] ['a', '/', 'b', '/', 'n'] true = .invalid := by decide
+
+/-! ### getters -/
+
+theorem getter_reads_only_own (g : Getter) (b : Bits) (dns value ns n : Str)
+    (hb : getterAllow b g = false) (hd : dns ≠ [])
+    (h : getterResolve g b dns value = .obj ns n) : ns = dns := by
+  cases g with
+  | svc =>
+    simp only [getterResolve] at h
+    simp only [getterAllow] at hb
+    rw [hb] at h
+    exact resolve_own_ns_str dns value ns n hd h
+  | dh => simp [getterAllow] at hb
+  | tls =>
+    simp only [getterResolve] at h
+    split at h
+    · split at h <;> simp at h
+    · split at h
+      · simp at h
+      · rw [hb] at h; exact resolve_own_ns_str dns _ ns n hd h
+  | ca =>
+    simp only [getterResolve] at h
+    split at h
+    · split at h <;> simp at h
+    · split at h
+      · simp at h
+      · rw [hb] at h; exact resolve_own_ns_str dns _ ns n hd h
+  | pw =>
+    simp only [getterResolve] at h
+    split at h
+    · split at h <;> simp at h
+    · split at h
+      · simp at h
+      · rw [hb] at h; exact resolve_own_ns_str dns _ ns n hd h
+
+/-- a getter's answer depends on the settings only through ITS permission -/
+theorem bits_independent (g : Getter) (b b' : Bits) (dns value : Str)
+    (h : getterAllow b g = getterAllow b' g) :
+    getterResolve g b dns value = getterResolve g b' dns value := by
+  cases g <;> simp_all [getterResolve, getterAllow]
+
+/-- which field that is: crt → tls, ca → ca, passwd → pw, services → svc (and none for dh) -/
+theorem getter_bit_fields (b b' : Bits) (dns value : Str) :
+    (b.crt = b'.crt → getterResolve .tls b dns value = getterResolve .tls b' dns value) ∧
+    (b.ca = b'.ca → getterResolve .ca b dns value = getterResolve .ca b' dns value) ∧
+    (b.pw = b'.pw → getterResolve .pw b dns value = getterResolve .pw b' dns value) ∧
+    (b.svc = b'.svc → getterResolve .svc b dns value = getterResolve .svc b' dns value) ∧
+    getterResolve .dh b dns value = getterResolve .dh b' dns value :=
+  ⟨fun h => bits_independent _ _ _ _ _ (by simpa [getterAllow] using h),
+   fun h => bits_independent _ _ _ _ _ (by simpa [getterAllow] using h),
+   fun h => bits_independent _ _ _ _ _ (by simpa [getterAllow] using h),
+   fun h => bits_independent _ _ _ _ _ (by simpa [getterAllow] using h),
+   bits_independent _ _ _ _ _ (by simp [getterAllow])⟩
+
+/-- opening the three other kinds opens nothing for a getter whose own kind is denied -/
+example : getterResolve .tls ⟨false, true, true, true⟩ ['a'] ['b', '/', 'n'] = .denied ∧
+          getterResolve .ca ⟨true, false, true, true⟩ ['a'] ['b', '/', 'n'] = .denied ∧
+          getterResolve .pw ⟨true, true, false, true⟩ ['a'] ['b', '/', 'n'] = .denied ∧
+          getterResolve .svc ⟨true, true, true, false⟩ ['a'] ['b', '/', 'n'] = .denied ∧
+          getterResolve .tls ⟨true, false, false, false⟩ ['a'] ['b', '/', 'n'] = .obj ['b'] ['n'] := by decide
+
+/-- `secret://ns/name` is the same reference as `ns/name`; `file://` reads no object -/
+example : getterResolve .tls Bits.none ['a'] ("secret://b/n".toList) = .denied ∧
+          getterResolve .tls Bits.none ['a'] ['s','e','c','r','e','t',':','/','/','a','/','n'] = .obj ['a'] ['n'] ∧
+          getterResolve .ca Bits.none ['a'] ['f','i','l','e',':','/','/','/','x'] = .file ['/','x'] := by
+  refine ⟨?_, ?_, ?_⟩ <;> decide
+
+/-! ### buildGlobalDynamic -/
+
+theorem dyn_default_deny : buildGlobalDynamic false {} = Bits.none := by decide
+
+theorem dyn_allow_iff (static : Bool) (cm : GlobalCM) (k : Kind) :
+    (buildGlobalDynamic static cm).get k = true ↔
+      (k ≠ .svc ∧ static = true) ∨
+      allowOf (match k with | .crt => cm.crt | .ca => cm.ca | .pw => cm.pw | .svc => cm.svc) = true := by
+  cases k <;> cases static <;> simp [buildGlobalDynamic, Bits.get]
+
+/-- only a value that lower-cases to `allow` opens; `deny`, an empty or missing value and every
+other text deny -/
+theorem allowOf_iff (v : Str) : allowOf v = true ↔ v.map lowerChar = sAllow := by simp [allowOf]
+
+example : allowOf "deny".toList = false ∧ allowOf [] = false ∧ allowOf "yes".toList = false ∧
+          allowOf "allowed".toList = false ∧ allowOf " allow".toList = false ∧
+          allowOf ['a','l','l','o','w'] = true ∧ allowOf ['A','l','l','O','W'] = true := by
+  refine ⟨?_, ?_, ?_, ?_, ?_, ?_, ?_⟩ <;> decide
+
+/-- each key opens only its own kind: a key's value does not influence the three other bits -/
+theorem dyn_key_opens_only_its_kind (static : Bool) (cm : GlobalCM) (v : Str) :
+    (∀ k, k ≠ .crt → (buildGlobalDynamic static { cm with crt := v }).get k = (buildGlobalDynamic static cm).get k) ∧
+    (∀ k, k ≠ .ca → (buildGlobalDynamic static { cm with ca := v }).get k = (buildGlobalDynamic static cm).get k) ∧
+    (∀ k, k ≠ .pw → (buildGlobalDynamic static { cm with pw := v }).get k = (buildGlobalDynamic static cm).get k) ∧
+    (∀ k, k ≠ .svc → (buildGlobalDynamic static { cm with svc := v }).get k = (buildGlobalDynamic static cm).get k) := by
+  refine ⟨?_, ?_, ?_, ?_⟩ <;> intro k hk <;> cases k <;> simp_all [buildGlobalDynamic, Bits.get]
+
+/-- the command-line override opens the three secret kinds and never services -/
+theorem dyn_static (cm : GlobalCM) :
+    (buildGlobalDynamic true cm).crt = true ∧ (buildGlobalDynamic true cm).ca = true ∧
+    (buildGlobalDynamic true cm).pw = true ∧
+    (buildGlobalDynamic true cm).svc = (buildGlobalDynamic false cm).svc := by
+  simp [buildGlobalDynamic]
+
+/-! ### reference sites -/
+
+/-- sites that hand the annotated object's namespace to the getter -/
+def Site.direct : Site → Bool
+  | .tls | .gwCert | .authTLS | .authSecret | .authURL => true
+  | .secureCrt | .secureCA => false
+
+theorem site_reads_only_own (s : Site) (hs : s.direct = true) (b : Bits) (src value ns n : Str)
+    (hb : b.get s.kind = false) (hsrc : src ≠ [])
+    (h : siteResolve s b src value = .obj ns n) : ns = src := by
+  cases s <;> simp [Site.direct] at hs <;>
+    simp only [siteResolve, siteArgs] at h <;>
+    exact getter_reads_only_own _ b src value ns n (by simpa [Site.getter, getterAllow, Site.kind, Bits.get] using hb) hsrc h
+
+/-! values without a slash -/
+
+theorem splitSlash_noslash (v : Str) (hv : ∀ c ∈ v, c ≠ '/') : splitSlash v = [v] := by
+  induction v with
+  | nil => rfl
+  | cons c cs ih =>
+    have hcs : ∀ x ∈ cs, x ≠ '/' := fun x hx => hv x (List.mem_cons_of_mem _ hx)
+    have hc : c ≠ '/' := hv c List.mem_cons_self
+    simp [splitSlash, ih hcs, hc]
+
+theorem gcp_noslash (v : Str) (hv : ∀ c ∈ v, c ≠ '/') : getContentProtocol v = (sSecret, v) := by
+  unfold getContentProtocol
+  have : ¬ ((v.drop (v.takeWhile isLowerAZ).length).take 3 = sSep) := by
+    intro h
+    have hm : '/' ∈ (v.drop (v.takeWhile isLowerAZ).length).take 3 := by rw [h]; decide
+    exact hv '/' (List.mem_of_mem_drop (List.mem_of_mem_take hm)) rfl
+  simp [this]
+
+/-- the two secure-* keys stay in the annotated object's namespace for a value without a slash … -/
+theorem secure_site_bare_name (s : Site) (hs : s = .secureCrt ∨ s = .secureCA) (b : Bits)
+    (src value : Str) (hv : ∀ c ∈ value, c ≠ '/') (hsrc : src ≠ []) :
+    siteResolve s b src value = .obj src value := by
+  have hss : sSecret ≠ sFile := by decide
+  rcases hs with rfl | rfl <;>
+    simp [siteResolve, siteArgs, namespacedName, splitSlash_noslash value hv, getterResolve, Site.getter,
+      gcp_noslash value hv, hss, buildResourceName, buildResourceNameK, splitKey, hsrc]
+
+/- FULL STRENGTH (what the property asks of every site):
+
+     theorem isolation (s : Site) (b : Bits) (ex : Existing) (fi : Bool) (src value ns n : Str) :
+         b.get s.kind = false → src ≠ [] → siteUses s b ex fi src value = .obj ns n → ns = src
+
+   is FALSE for the code as it is.  The refutations follow; each one is a replayable harness
+   case and has its own oracle signature. -/
+
+/-- (a) `secure-crt-secret: b/crt` on an object of namespace `a`, every permission denied: the
+cache is asked for `b/crt` with default namespace `b`, so the check compares `b` with `b`.
+Oracle signature `foreign-secret-read:secure-crt-secret`. -/
+theorem secure_crt_bypass :
+    siteResolve .secureCrt Bits.none ['a'] ['b', '/', 'c', 'r', 't'] = .obj ['b'] ['c', 'r', 't'] := by decide
+
+/-- same for `secure-verify-ca-secret` (`foreign-secret-read:secure-verify-ca-secret`) -/
+theorem secure_ca_bypass :
+    siteResolve .secureCA Bits.none ['a'] ['b', '/', 'c', 'a'] = .obj ['b'] ['c', 'a'] := by decide
+
+/-- what the table does: the namespace written in the value becomes the default namespace -/
+theorem secure_site_any_namespace (s : Site) (hs : s = .secureCrt ∨ s = .secureCA) (b : Bits)
+    (src ns n : Str) (hns : ∀ c ∈ ns, c ≠ '/') (hn : ∀ c ∈ n, c ≠ '/') (hne : ns ≠ []) :
+    siteResolve s b src (ns ++ '/' :: n) = .obj ns n := by
+  have hsp : splitSlash (ns ++ '/' :: n) = [ns, n] := by
+    induction ns with
+    | nil => simp [splitSlash, splitSlash_noslash n hn]
+    | cons c cs ih =>
+      have hc : c ≠ '/' := hns c List.mem_cons_self
+      have hcs : ∀ x ∈ cs, x ≠ '/' := fun x hx => hns x (List.mem_cons_of_mem _ hx)
+      by_cases hcsn : cs = []
+      · subst hcsn; simp [splitSlash, splitSlash_noslash n hn, hc]
+      · simp [splitSlash, ih hcs hcsn, hc]
+  have hss : sSecret ≠ sFile := by decide
+  rcases hs with rfl | rfl <;>
+    simp [siteResolve, siteArgs, namespacedName, hsp, getterResolve, Site.getter,
+      gcp_noslash n hn, hss, buildResourceName, buildResourceNameK, splitKey,
+      splitSlash_noslash n hn, hne]
+
+def exUserlistB : Existing :=
+  { userlist := fun ns n => ns == ['b'] && n == ['p', 'w'], backend := fun _ _ => false }
+def exBackendB : Existing :=
+  { userlist := fun _ _ => false, backend := fun ns n => ns == ['b'] && n == ['s', 'v', 'c'] }
+
+/-- (c) `auth-secret: b/pw` while namespace b's own ingress already built the userlist `b_pw`:
+`Userlists().Find` answers before the cache is asked. Signature `foreign-secret-used:auth-secret`. -/
+theorem auth_secret_reuse_bypass :
+    siteUses .authSecret Bits.none exUserlistB true ['a'] ['b', '/', 'p', 'w'] = .obj ['b'] ['p', 'w'] ∧
+    siteReads .authSecret Bits.none exUserlistB true ['a'] ['b', '/', 'p', 'w'] = none ∧
+    siteUses .authSecret Bits.none Existing.none true ['a'] ['b', '/', 'p', 'w'] = .denied := by
+  refine ⟨?_, ?_, ?_⟩ <;> decide
+
+/-- (b) `auth-url: svc://b/svc:port` while a backend for `b/svc:port` exists: the pre-build is
+refused (`GetService` is checked) but `FindBackend` finds the other tenant's backend.
+Signature `foreign-service-used:auth-url-svc`. -/
+theorem auth_url_findbackend_bypass :
+    siteReads .authURL Bits.none exBackendB true ['a'] ['b', '/', 's', 'v', 'c'] = some .denied ∧
+    siteUses .authURL Bits.none exBackendB true ['a'] ['b', '/', 's', 'v', 'c'] = .obj ['b'] ['s', 'v', 'c'] ∧
+    siteUses .authURL Bits.none Existing.none true ['a'] ['b', '/', 's', 'v', 'c'] = .denied := by
+  refine ⟨?_, ?_, ?_⟩ <;> decide
+
+/-- (e) Gateway certificateRefs are evaluated with the permissions of the PREVIOUS reconciliation:
+after the operator turns `cross-namespace-secrets-crt` from allow to deny the reference to
+`b/crt` is still followed.  Signature `foreign-secret-read:gateway-certificate-ref`. -/
+theorem gateway_stale_permission :
+    let prev := buildGlobalDynamic false { crt := sAllow }
+    let cur := buildGlobalDynamic false {}
+    cur.crt = false ∧
+    siteResolve .gwCert (bitsSeenBy .gwCert prev cur) ['a'] ['b', '/', 'c', 'r', 't'] = .obj ['b'] ['c', 'r', 't'] ∧
+    siteResolve .tls (bitsSeenBy .tls prev cur) ['a'] ['b', '/', 'c', 'r', 't'] = .denied := by
+  refine ⟨?_, ?_, ?_⟩ <;> decide
+
+/-- auth-url: when the pre-build (`GetService`, checked) succeeds with services denied, the
+namespace `setAuthExternal` looks the backend up in is the annotated object's -/
+theorem authURL_prebuilt_own (b : Bits) (src value tns tn rns rn : Str)
+    (hb : b.get Site.authURL.kind = false) (hsrc : src ≠ [])
+    (hnn : namespacedName src value = some (tns, tn)) (htns : ¬ tns = [])
+    (hr : siteResolve .authURL b src value = .obj rns rn) : tns = src := by
+  have hsvc : b.svc = false := by simpa [Site.kind, Bits.get] using hb
+  simp only [siteResolve, siteArgs, getterResolve, Site.getter, buildResourceName, splitKey, hsvc] at hr
+  simp only [namespacedName] at hnn
+  split at hnn
+  · simp only [Option.some.injEq, Prod.mk.injEq] at hnn; exact hnn.1.symm
+  · rename_i x y hxy
+    simp only [Option.some.injEq, Prod.mk.injEq] at hnn
+    obtain ⟨rfl, rfl⟩ := hnn
+    simp only [hxy, buildResourceNameK, hsrc, if_false, htns, Bool.false_or] at hr
+    by_cases hx : x = src
+    · exact hx
+    · simp [hx] at hr
+  · simp at hnn
+
+/-- the side conditions that exclude exactly the paths above -/
+structure SafeUse (s : Site) (ex : Existing) (src value : Str) : Prop where
+  /-- secure-* keys: the value has no slash -/
+  secure : (s = .secureCrt ∨ s = .secureCA) → ∀ c ∈ value, c ≠ '/'
+  /-- auth-secret: no userlist of another namespace exists -/
+  userlist : s = .authSecret → ∀ ns n, ex.userlist ns n = true → ns = src
+  /-- auth-url: no backend of another namespace exists -/
+  backend : s = .authURL → ∀ ns n, ex.backend ns n = true → ns = src
+
+/-- **isolation, partial**: while the kind of a site is denied (permissions as seen by the site
+— for Gateway references see `gateway_stale_permission`), under `SafeUse` whatever object
+reaches the configuration lives in the namespace of the annotated object -/
+theorem isolation_partial (s : Site) (b : Bits) (ex : Existing) (fi : Bool) (src value ns n : Str)
+    (hb : b.get s.kind = false) (hsrc : src ≠ []) (hsafe : SafeUse s ex src value)
+    (h : siteUses s b ex fi src value = .obj ns n) : ns = src := by
+  cases s with
+  | tls => exact site_reads_only_own .tls rfl b src value ns n hb hsrc h
+  | gwCert => exact site_reads_only_own .gwCert rfl b src value ns n hb hsrc h
+  | authTLS => exact site_reads_only_own .authTLS rfl b src value ns n hb hsrc h
+  | secureCrt =>
+    have := secure_site_bare_name .secureCrt (Or.inl rfl) b src value (hsafe.secure (Or.inl rfl)) hsrc
+    simp only [siteUses, this, Res.obj.injEq] at h
+    exact h.1.symm
+  | secureCA =>
+    have := secure_site_bare_name .secureCA (Or.inr rfl) b src value (hsafe.secure (Or.inr rfl)) hsrc
+    simp only [siteUses, this, Res.obj.injEq] at h
+    exact h.1.symm
+  | authSecret =>
+    simp only [siteUses] at h
+    split at h
+    · rename_i kns kn _
+      split at h
+      · rename_i hex
+        simp only [Res.obj.injEq] at h
+        rw [← h.1]; exact hsafe.userlist rfl kns kn hex
+      · exact site_reads_only_own .authSecret rfl b src value ns n hb hsrc h
+    · exact site_reads_only_own .authSecret rfl b src value ns n hb hsrc h
+  | authURL =>
+    simp only [siteUses] at h
+    split at h
+    · simp at h
+    · rename_i tns tn hnn
+      split at h
+      · simp at h
+      · rename_i htns
+        cases hr : siteResolve .authURL b src value with
+        | obj rns rn =>
+          have htn := authURL_prebuilt_own b src value tns tn rns rn hb hsrc hnn htns hr
+          simp only [hr] at h
+          split at h
+          · simp only [Res.obj.injEq] at h; rw [← h.1]; exact htn
+          · simp at h
+        | file p =>
+          simp only [hr, Bool.and_false, Bool.false_or] at h
+          split at h
+          · rename_i hex; simp only [Res.obj.injEq] at h; rw [← h.1]; exact hsafe.backend rfl tns tn hex
+          · simp at h
+        | denied =>
+          simp only [hr, Bool.and_false, Bool.false_or] at h
+          split at h
+          · rename_i hex; simp only [Res.obj.injEq] at h; rw [← h.1]; exact hsafe.backend rfl tns tn hex
+          · simp at h
+        | invalid =>
+          simp only [hr, Bool.and_false, Bool.false_or] at h
+          split at h
+          · rename_i hex; simp only [Res.obj.injEq] at h; rw [← h.1]; exact hsafe.backend rfl tns tn hex
+          · simp at h
+
+/-! ### noninterference -/
+
+/-- what reaches the configuration, given which objects exist -/
+def effect (exist : Str → Str → Bool) : Res → Res
+  | .obj ns n => if exist ns n then .obj ns n else .invalid
+  | r => r
+
+/-- **noninterference, partial**: two clusters that hold the same objects in the annotated
+object's namespace give the same result, whatever else differs (in particular: with and without
+any foreign object), while the site's kind is denied and under `SafeUse` -/
+theorem noninterference_partial (s : Site) (b : Bits) (ex : Existing) (fi : Bool) (src value : Str)
+    (hb : b.get s.kind = false) (hsrc : src ≠ []) (hsafe : SafeUse s ex src value)
+    (w w' : Str → Str → Bool) (hagree : ∀ n, w src n = w' src n) :
+    effect w (siteUses s b ex fi src value) = effect w' (siteUses s b ex fi src value) := by
+  cases hu : siteUses s b ex fi src value with
+  | obj ns n =>
+    have := isolation_partial s b ex fi src value ns n hb hsrc hsafe hu
+    subst this
+    simp [effect, hagree n]
+  | file p => rfl
+  | denied => rfl
+  | invalid => rfl
+
+/-- and it fails without the side condition: the secure-crt-secret bypass distinguishes a
+cluster with `b/crt` from one without -/
+theorem noninterference_fails :
+    ∃ (w w' : Str → Str → Bool), (∀ n, w ['a'] n = w' ['a'] n) ∧
+      effect w (siteUses .secureCrt Bits.none Existing.none true ['a'] ['b', '/', 'c', 'r', 't']) ≠
+      effect w' (siteUses .secureCrt Bits.none Existing.none true ['a'] ['b', '/', 'c', 'r', 't']) :=
+  ⟨fun _ _ => true, fun ns _ => ns == ['a'], fun _ => rfl, by decide⟩
+
+/-- non-vacuity of `isolation_partial`: own references resolve, foreign ones are refused -/
+example :
+    siteUses .tls Bits.none Existing.none true ['a'] ['c', 'r', 't'] = .obj ['a'] ['c', 'r', 't'] ∧
+    siteUses .tls Bits.none Existing.none true ['a'] ['b', '/', 'c', 'r', 't'] = .denied ∧
+    siteUses .authTLS ⟨true, false, true, true⟩ Existing.none true ['a'] ['b', '/', 'c', 'a'] = .denied ∧
+    siteUses .authSecret ⟨true, true, false, true⟩ Existing.none true ['a'] ['b', '/', 'p', 'w'] = .denied ∧
+    siteUses .authURL ⟨true, true, true, false⟩ Existing.none true ['a'] ['b', '/', 's', 'v', 'c'] = .denied ∧
+    siteUses .authURL Bits.none Existing.none true ['a'] ['s', 'v', 'c'] = .obj ['a'] ['s', 'v', 'c'] ∧
+    siteUses .secureCrt Bits.none Existing.none true ['a'] ['c', 'r', 't'] = .obj ['a'] ['c', 'r', 't'] := by
+  refine ⟨?_, ?_, ?_, ?_, ?_, ?_, ?_⟩ <;> decide
+
+/-! ### facts regenerated from the Go source -/
+
+set_option maxRecDepth 10000 in
+/-- every getter passes its own permission; the name helpers, the regex, buildGlobalDynamic and
+validateAllowDeny have the modelled shape; THE TABLE of reference sites; Userlists().Find comes
+before the cache; the Gateway converter runs before the ingress converter and only `syncFull`
+calls UpdateGlobalConfig.  (A fix of one of the findings changes a fact: the model is then revisited.) -/
+theorem facts_c09 :
+    Facts.c09GetterPermission =
+      ["GetService: defaultNamespace, \"service\", serviceName, c.dynconfig.CrossNamespaceServices",
+       "GetTLSSecretPath: defaultNamespace, \"secret\", content, c.dynconfig.CrossNamespaceSecretCertificate",
+       "GetCASecretPath: defaultNamespace, \"secret\", content, c.dynconfig.CrossNamespaceSecretCA",
+       "GetDHSecretPath: defaultNamespace, \"secret\", content, true",
+       "GetPasswdSecretContent: defaultNamespace, \"secret\", content, c.dynconfig.CrossNamespaceSecretPasswd"] ∧
+    Facts.c09BuildResourceName.take 9 =
+      ["ns, name, err := cache.SplitMetaNamespaceKey(resourceName)", "if err != nil", "return \"\", \"\", err",
+       "if defaultNamespace == \"\"", "return ns, name, nil", "if ns == \"\"", "return defaultNamespace, name, nil",
+       "if allowCrossNamespace || ns == defaultNamespace", "return ns, name, nil"] ∧
+    Facts.c09BuildResourceName.length = 10 ∧
+    Facts.c09ContentProtocolRegex = "^([a-z]+)://(.*)$" ∧
+    Facts.c09ContentProtocol =
+      ["data := contentProtocolRegex.FindStringSubmatch(input)", "if len(data) < 3", "return \"secret\", input",
+       "return data[1], data[2]"] ∧
+    Facts.c09BuildGlobalDynamic =
+      ["staticSecrets := c.options.DynamicConfig.StaticCrossNamespaceSecrets",
+       "c.options.DynamicConfig.CrossNamespaceSecretCA = staticSecrets || c.validateAllowDeny(d, ingtypes.GlobalCrossNamespaceSecretsCA)",
+       "c.options.DynamicConfig.CrossNamespaceSecretCertificate = staticSecrets || c.validateAllowDeny(d, ingtypes.GlobalCrossNamespaceSecretsCrt)",
+       "c.options.DynamicConfig.CrossNamespaceSecretPasswd = staticSecrets || c.validateAllowDeny(d, ingtypes.GlobalCrossNamespaceSecretsPasswd)",
+       "c.options.DynamicConfig.CrossNamespaceServices = c.validateAllowDeny(d, ingtypes.GlobalCrossNamespaceServices)"] ∧
+    Facts.c09ValidateAllowDeny =
+      ["cfg := d.mapper.Get(key)", "value := strings.ToLower(cfg.Value)", "allow = value == \"allow\"",
+       "if value != \"\" && value != \"allow\" && value != \"deny\"", "return allow"] ∧
+    Facts.c09Sites =
+      ["tls: source.Namespace, secretName",
+       "gateway-cert: namespace, string(certRef.Name)",
+       "auth-tls-secret: tlsSecret.Source.Namespace, tlsSecret.Value",
+       "secure-crt-secret: namespace, name",
+       "secure-verify-ca-secret: namespace, name",
+       "auth-secret: authSecret.Source.Namespace, authSecret.Value",
+       "auth-url: namespace, name, urlPort"] ∧
+    Facts.c09SecureNamespacedName =
+      ["namespace, name, err := crt.NamespacedName()", "namespace, name, err := ca.NamespacedName()"] ∧
+    Facts.c09UserlistFindBeforeCache = true ∧
+    Facts.c09SyncOrder.getLast? = some "ingressConverter.Sync" ∧
+    Facts.c09SyncOrder.head? = some "gatewayConverter.Sync" ∧
+    Facts.c09UpdateGlobalConfigCallers = ["syncFull"] := by
+  decide
+
 end HapVerif.C09
